@@ -22,11 +22,11 @@ REPO = os.environ.get("VERIF_REPO", "/repo")
 # property -> (proof modules, bounded module or None)
 PROPS = {
     "C01": (["geometry", "lemmas"], "c01"),
-    "C02": (["colslice", "rowsel", "indices", "derived", "dispatch", "lemmas"], "c02"),
-    "C03": (["colslice", "rowsel", "assign", "indices", "derived", "dispatch", "broadcast", "lemmas"], "c03"),
+    "C02": (["colslice", "rowsel", "indices", "derived", "dispatch", "e2e", "lemmas"], "c02"),
+    "C03": (["colslice", "rowsel", "assign", "indices", "derived", "dispatch", "broadcast", "e2e", "lemmas"], "c03"),
     "C04": (["ufunc", "broadcast", "lemmas"], "c04"),
     "C05": (["reduce", "structural", "broadcast", "lemmas"], "c05"),
-    "C06": (["colslice", "rowsel", "indices", "derived", "dispatch", "frames", "lemmas"], "c06"),
+    "C06": (["colslice", "rowsel", "indices", "derived", "dispatch", "frames", "e2e", "lemmas"], "c06"),
     "C07": (["scans", "broadcast", "lemmas"], "c07"),
     "C08": (["structural", "geometry", "derived", "broadcast", "lemmas"], "c08"),
     "C09": (["columns", "lemmas"], "c09"),
